@@ -317,10 +317,14 @@ def main(argv):
                                                    len(known_seen), len(unknown), len(res.unsupported), len(res.errors), wall))
     if vio_groups:
         return 1
-    if res.errors or n_obl == 0 or (ledger_missing and not res.unsupported and not unknown):
-        for m in ledger_missing[:20]:
-            print('CHECKER-ERROR property=%s ledger obligation no longer generated: %s' % (prop, m))
+    if res.errors or n_obl == 0:
         return 3
+    if ledger_missing:
+        # an obligation that was discharged on the unchanged tree is not generated any more (the code it is generated from changed shape, e.g. a
+        # pin named after the attributes a setter writes): nothing was refuted, but the property is not shown to hold either -> undecided
+        for m in ledger_missing[:20]:
+            print('UNDECIDED property=%s ledger obligation no longer generated (the code it was generated from changed shape): %s: needs review' % (prop, m))
+        return 2
     if res.unsupported or unknown or bounded_fail or needs_contract:
         return 2
     return 0
